@@ -777,7 +777,12 @@ fn peel(v: &[Sx]) -> Sx {
     let mut tc = vec![];
     let mut dc = vec![];
     let mut layers = vec![a("layers")];
-    let mut cur = term.clone();
+    // a second, independent parse: the closed run above has filled hole cells of `term`
+    let term2 = match parse(None, &src, &toks[..], &[]) {
+        Ok(t) => t,
+        Err(_) => return l(vec![a("rejected")]),
+    };
+    let mut cur = term2.clone();
     for _ in 0..k {
         let next = match &cur.variant {
             Variant::Lambda(_, false, domain, body) => {
@@ -805,10 +810,15 @@ fn peel(v: &[Sx]) -> Sx {
         cur = next;
     }
     let depth_before = (tc.len(), dc.len());
-    let snapshot: Vec<String> = tc.iter().map(|(t, o)| format!("{}@{}", t, o)).collect();
+    // the entries themselves (by identity): a hole inside an entry may legitimately get solved
+    let snapshot: Vec<(usize, usize)> = tc.iter().map(|(t, o)| (std::rc::Rc::as_ptr(t) as usize, *o)).collect();
+    let dsnap: Vec<Option<(usize, usize)>> =
+        dc.iter().map(|e| e.as_ref().map(|(t, o)| (std::rc::Rc::as_ptr(t) as usize, *o))).collect();
     let open_res = type_check(None, &src, &cur, &mut tc, &mut dc);
-    let snapshot2: Vec<String> = tc.iter().map(|(t, o)| format!("{}@{}", t, o)).collect();
-    let restored = depth_before == (tc.len(), dc.len()) && snapshot == snapshot2;
+    let snapshot2: Vec<(usize, usize)> = tc.iter().map(|(t, o)| (std::rc::Rc::as_ptr(t) as usize, *o)).collect();
+    let dsnap2: Vec<Option<(usize, usize)>> =
+        dc.iter().map(|e| e.as_ref().map(|(t, o)| (std::rc::Rc::as_ptr(t) as usize, *o))).collect();
+    let restored = depth_before == (tc.len(), dc.len()) && snapshot == snapshot2 && dsnap == dsnap2;
     let c = match &closed {
         Ok((e, t)) => l(vec![a("ok"), exp.term(e, true), exp.term(t, true)]),
         Err(es) => l(vec![a("err"), n(es.len())]),
